@@ -98,4 +98,4 @@ let () =
   register "ttmlwrite" (fun r ->
     let indent = rstr r in
     let d = rtdoc r in
-    pres pstr (write_ttml_bytes indent d))
+    pres pstr (write_ttml_bytes_go indent d))
